@@ -53,10 +53,15 @@ def mutations(seed: bytes, rnd, quick, stride=1):
     for k in range(6 if quick else 60):
         M.append(("random", rnd.randrange(1, 400), rnd.randrange(1 << 30)))
     M.append(("huge", 60000, 0))
+    crafted = []                             # never sub-sampled
+    for k in (8, 20, 40):
+        crafted.append(("overlap", k, 0))    # nested lengths that all reach to the end of the datagram: 2^k routes through the same octets
+    for n in (1000, 6400):
+        crafted.append(("many", n, 0))       # a well-formed message with thousands of tiny bindings (work must stay linear in the size)
     M.append(("insert80", 0, 0))
     for p in hp[:40]:
         M.append(("straddle", p, 0))
-    return M[::stride] if stride > 1 else M
+    return (M[::stride] if stride > 1 else M) + crafted
 
 
 def sticky_behaviours(v3: bool):
@@ -91,6 +96,21 @@ def apply(seed: bytes, m):
         return bytes(r.randrange(256) for _ in range(a))
     if kind == "huge":
         return seed[:8] + b"\x04\x83\x00\xea\x60" + b"\x00" * a
+    if kind == "overlap":
+        total = 6 * a + 7
+        out = bytearray()
+        for i in range(a):
+            rest = total - (6 * i + 6)
+            out += b"\x30\x04\x30\x82" + bytes([rest >> 8, rest & 255])
+        return bytes(out) + b"\x02\x01\x00\x05\x00\x05\x00"
+    if kind == "many":
+        try:
+            q = parse_community(seed)
+        except Exception:  # noqa   (v3 seeds: left alone)
+            return seed
+        vbs = [((1, 3, 6, (i >> 7) & 127, i & 127), NULL) for i in range(a)]
+        forms = {"top": 3, "pdu": 3, "vbl": 3}
+        return build_community(q["version"], q["community"], build_pdu(q["ptype"], q["reqid"], 0, 0, vbs), None)
     if kind == "insert80":
         return seed[:1] + b"\x80" + seed[2:] + b"\x00\x00"
     if kind == "straddle":           # declared length one short, next octet 0x80: the header straddles its container
@@ -184,7 +204,7 @@ async def run_target(target, proto, muts, seedsel):
             r0 = rss_kb()
             t0 = time.process_time()
             try:
-                with cpu_budget(1.5 if m[0] not in ("huge", "nest", "nest_tail") else 6.0):
+                with cpu_budget(1.5 if m[0] not in ("huge", "nest", "nest_tail", "many") else 6.0):
                     if seedsel == "multiget":
                         await c.multiget([OID(oidstr(INST)), OID(oidstr(PFX + (1, 2, 0))), OID(oidstr(PFX + (1, 3, 0)))])
                     elif seedsel == "bulk":
@@ -225,7 +245,7 @@ async def run_target(target, proto, muts, seedsel):
                     ok = (await c.get(OID(oidstr(INST)))).value == b"value-of-the-object"
             except (Exception, CpuBudget, RequestFlood):  # noqa
                 ok = False
-            out.append(dict(e="case", target=target, proto=proto, mut=list(m), len=max(state["seed_len"], 1) if m[0] not in ("huge", "nest", "nest_tail", "random") else 65000,
+            out.append(dict(e="case", target=target, proto=proto, mut=list(m), len=max(state["seed_len"], 1) if m[0] not in ("huge", "nest", "nest_tail", "random", "many") else 65000,
                             outcome=outcome, cpu_ms=int(cpu * 1000), rss_growth_kb=max(0, rss_kb() - r0), followup_ok=bool(ok)))
     finally:
         _clk.__exit__(None, None, None)
@@ -260,7 +280,7 @@ def run_trap(muts):
                 r0 = rss_kb()
                 t0 = time.process_time()
                 try:
-                    with cpu_budget(1.5 if m[0] not in ("huge", "nest", "nest_tail") else 6.0):
+                    with cpu_budget(1.5 if m[0] not in ("huge", "nest", "nest_tail", "many") else 6.0):
                         proto.datagram_received(data, ("192.0.2.9", 1234))
                         await asyncio.sleep(0)
                     outcome = "dropped"
